@@ -972,7 +972,7 @@ def gencmp_watchers(ctx):
     Evaluates Generated.compare_watchers on wd pairs from [-1..3] (checks/gencmp.py)."""
     import gencmp
     r = gencmp.grid_check([(w,) for w in range(-1, 4)],
-                          lambda a, b: f"(compare_watchers ({a[0]}) ({b[0]})).map (·.ret)")
+                          lambda a, b: f"match compare_watchers ({a[0]}) ({b[0]}) with | some o => o.ret | none => 99")
     ctx.count()
     if r:
         law, keys, vals = r
